@@ -329,7 +329,7 @@ WBXML_DECLARE(WB_BOOL) wbxml_buffer_shrink_blanks(WBXMLBuffer *buffer)
             while (wbxml_buffer_get_char(buffer, j, &ch) && isspace(ch))
                 j++;
 
-            if (j - i > 1)
+            if (j > i)
                 wbxml_buffer_delete(buffer, i, j - i);
         }
     }
